@@ -41,6 +41,7 @@ def run(ctx):
     ctx.build_go()
     ok_proofs = True
     try:
+        ctx.extract(["lexertmpl"])
         ctx.prove("Emerge.Props.C08")
         if not quick:
             ctx.leanchecker("Emerge.Props.C08")
